@@ -113,7 +113,7 @@ func advOp(t *sim.Tape, fsKind string, uniq string) fsx.Op {
 		o.Uid, o.Gid = []int{0, -1, 1000, 65534}[t.Int(4)], []int{0, -1, 1000}[t.Int(3)]
 	case "Chtimes":
 		o.P = p()
-		o.Size = []int64{0, 1, 1700000000, -1}[t.Int(4)]
+		o.Size = []int64{0, 1, 1700000000, -1, fsx.ZeroTime}[t.Int(5)]
 	case "Glob":
 		o.P = []string{"/a/*", "*", "[", "/a/[", "/*/*", "\\", "/a/?", "", "/a/d/../*", "a/*"}[t.Int(10)]
 	case "WalkDir":
